@@ -36,3 +36,6 @@ func AllocCheck()                  {}
 func MapCandidates(ids []uint32)   {}
 func AllocSampling(small, large int) {}
 func Note(s string)                {}
+func Yield(tag string)             {}
+func Quiesce()                     {}
+func Threads()                     {}
